@@ -84,8 +84,9 @@ def native_presentations():
                     "expected": numpy.ravel(want)[:3].tolist()}
         qp = numpy.concatenate([[0], 1 + rnd.permutation(nq - 1)]) if nq > 1 else numpy.array([0])
         mp_ = numpy.concatenate([[0, 1, 2], 3 + rnd.permutation(npm - 3)])
-        for label, got in (("weights x 7.5", ns.average_over_modes(X.copy(), 7.5 * w)), ("non-Gamma q-points permuted", ns.average_over_modes(X[:, :, qp, :].copy(), w[qp])),
-                           ("modes permuted", ns.average_over_modes(X[:, :, :, mp_].copy(), w))):
+        scaled = [("weights x %g" % lam, ns.average_over_modes(X.copy(), lam * w)) for lam in (7.5, 1.0 / 3.0, 1e-9, 1e-5, 1e-3, 1e4, 1e9)]      # ALL positive factors: only ratios of weights are physical
+        for label, got in scaled + [("non-Gamma q-points permuted", ns.average_over_modes(X[:, :, qp, :].copy(), w[qp])),
+                           ("modes permuted", ns.average_over_modes(X[:, :, :, mp_].copy(), w))]:
             n += 1
             if not numpy.allclose(numpy.asarray(got), base, rtol=1e-10, atol=1e-13):
                 return {"reproduced": True, "nq": nq, "what": "average_over_modes changes under the re-presentation: " + label, "observed": numpy.ravel(numpy.asarray(got))[:3].tolist(),
@@ -300,7 +301,13 @@ def rewrite_input01(src_text, transform):
         data = transform(data)
         out = os.path.join(tmp, "out")
         qi.write_energy(out, data)
-        return open(out).read()
+        text = open(out).read()
+        # the package's writer prints the weights with six decimals; a re-scaled weight is written at full precision instead (the file format is free-form)
+        head, sep, tail = text.rpartition("\nweight\n")
+        if sep and len(tail.strip().split("\n")) == len(data.weights):
+            tail = "".join("%10.6f %10.6f %10.6f %r\n" % (tuple(c) + (float(w),)) for c, w in data.weights)
+            text = head + sep + tail
+        return text
     finally:
         shutil.rmtree(tmp, ignore_errors=True)
 
@@ -331,8 +338,9 @@ def representations(s):
         vols = [models.VolumeData(v.pressure, v.volume, v.energy, [models.QPointData(qp.coord, [qp.modes[i] for i in perq[q]]) for q, qp in enumerate(v.q_points)]) for v in d.volumes]
         return models.QHAInputData(d.nv, d.nq, d.np, d.nm, d.na, d.weights, vols)
 
-    def scale_w(d):
-        return models.QHAInputData(d.nv, d.nq, d.np, d.nm, d.na, [models.QPointWeight(c, w * 4.0) for c, w in d.weights], d.volumes)
+    def scale_by(lam):
+        return lambda d: models.QHAInputData(d.nv, d.nq, d.np, d.nm, d.na, [models.QPointWeight(c, w * lam) for c, w in d.weights], d.volumes)
+    scale_w = scale_by(4.0)
 
     def rev_v(d):
         return models.QHAInputData(d.nv, d.nq, d.np, d.nm, d.na, d.weights, list(reversed(d.volumes)))
@@ -389,6 +397,7 @@ def representations(s):
             break
     # the same on a synthetic-but-physical set (cheap: every re-presentation on every run): modes unsorted and crossing, non-integer weights, lattice block
     all_variants = [("q-points 2..n permuted", perm_q, None), ("modes permuted within q-points", perm_m, None), ("weights x 4", scale_w, None),
+                    ("weights x 1e-7", scale_by(1e-7), None), ("weights x 3e5", scale_by(3e5), None),
                     ("volume blocks reversed", rev_v, "may-raise"), ("two inner volume blocks swapped", swap_v, "may-raise")]
     if not fails:
         t1, t2, desc = calc_env.synthetic_texts(seed=s.seed + 5, nq=4, na=2, system="orthorhombic")
@@ -424,8 +433,51 @@ def representations(s):
                     fails.append({"witness_id": "repr-syn:%s" % name, "input": {"data": "synthetic", "re-presentation": name, "set": desc}, "observed": bad,
                                   "expected": "results unchanged to rounding" + (" or an error" if mode else "")})
                     break
+    # static table re-presented (columns reordered / upper-cased, rows with their lattice rows reordered) in WHOLE calculations, on a nearly cubic cell: the
+    # three axial strain fractions differ by a few 1e-4 only, so which tasks are shared must not depend on the order the columns happen to be listed in
+    if not fails:
+        for lat, tag in (("pseudo_cubic", "nearly cubic"), (True, "orthorhombic")):
+            t1, t2, desc = calc_env.synthetic_texts(seed=s.seed + 6, nq=3, na=2, system="orthorhombic", lattice=lat)
+            with calc_env.Case("akimotoite", syn, input01_text=t1, elast_text=t2) as case:
+                ref = case.build()
+                ref_vals = {k: numpy.array(v) for k, v in ref.modulus_adiabatic.items()}
+                ref_strain = numpy.asarray(ref._full_modulus.get_axial_strains() if hasattr(getattr(ref, "_full_modulus", None), "get_axial_strains") else [[0.0]])
+            lines = t2.rstrip("\n").split("\n")
+            nrow = len(desc["table"]["V"])
+            head, colline, rows, latt = lines[:2], lines[2].split(), [ln.split() for ln in lines[3:3 + nrow]], lines[3 + nrow + 1:]
+            ncol = len(colline)
+            for name, cperm, upper, rperm in (("columns reversed", [0] + list(range(ncol - 1, 0, -1)), False, None),
+                                              ("columns rotated and upper-cased", [0] + [1 + (k + 4) % (ncol - 1) for k in range(ncol - 1)], True, None),
+                                              ("shear columns first", [0] + list(range(7, ncol)) + list(range(1, 7)), False, None),
+                                              ("rows reversed, columns c33 c22 c11 ...", [0, 3, 2, 1] + list(range(4, ncol)), False, list(range(nrow - 1, -1, -1)))):
+                rp = rperm or list(range(nrow))
+                new = head + [" ".join((colline[c].upper() if upper and c else colline[c]) for c in cperm)] + [" ".join(rows[i][c] for c in cperm) for i in rp] \
+                    + [lines[3 + nrow]] + [latt[i] for i in rp]
+                evals += 1
+                distinct += 1
+                with calc_env.Case("akimotoite", syn, input01_text=t1, elast_text="\n".join(new) + "\n") as case:
+                    try:
+                        c = case.build()
+                    except Exception as e:
+                        fails.append({"witness_id": "repr-static:%s" % name, "input": {"data": "synthetic, %s cell" % tag, "static table": name}, "observed": "raises %r" % (e,), "expected": "same results"})
+                        break
+                    bad = None
+                    for k in ref_vals:
+                        a, b = numpy.asarray(c.modulus_adiabatic[k]), ref_vals[k]
+                        ok = numpy.isfinite(b)
+                        scale = numpy.abs(b[ok]).max()
+                        if a.shape != b.shape or not numpy.allclose(a[ok], b[ok], rtol=1e-8, atol=1e-8 * scale):
+                            bad = "adiabatic %r differs by up to %.3g (scale %.3g)" % (k, float(numpy.abs(a[ok] - b[ok]).max()) if a.shape == b.shape else float("nan"), scale)
+                            break
+                    if bad:
+                        fails.append({"witness_id": "repr-static:%s" % name, "input": {"data": "synthetic, %s cell" % tag, "static table": name, "axial strain fractions (first grid volume)":
+                                                                                      numpy.ravel(ref_strain)[:3].tolist()},
+                                      "observed": bad, "expected": "results unchanged to rounding"})
+                        break
+            if fails:
+                break
     s.bounded_standin("C13.end_to_end_re_presentations", "akimotoite example re-written by the package's own writer; %d re-presentations x %d interpolator(s); a synthetic set (4 q-points, "
-                      "unsorted crossing modes, non-integer weights) under all 5 re-presentations; relative tolerance 1e-8; "
+                      "unsorted crossing modes, non-integer weights) under all 7 re-presentations (weights x 4, x 1e-7, x 3e5); whole calculations on a nearly cubic and an orthorhombic cell with the static table's columns reversed / rotated / upper-cased / shear first and its rows reversed; relative tolerance 1e-8; "
                       "reordered volume blocks must give the same numbers or be rejected; seed %d" % (len(variants), len(interps), s.seed), evals, distinct, fails,
                       ["calculator.Calculator"])
 
